@@ -304,6 +304,11 @@ impl Counts {
 
         // Release the stream if it requires releasing
         if stream.is_released() {
+            // A stream that is forgotten must not keep its concurrency slot,
+            // e.g. one whose scheduled reset was overtaken by the peer's.
+            if stream.is_counted {
+                self.dec_num_streams(&mut stream);
+            }
             stream.remove();
         }
     }
